@@ -355,7 +355,7 @@ impl Run {
 pub fn sanitize(s: &str) -> String {
     s.chars()
         .map(|c| if c.is_ascii_alphanumeric() || c == '-' || c == '_' { c } else { '_' })
-        .take(120)
+        .take(200)
         .collect()
 }
 
